@@ -560,9 +560,10 @@ def run(ctx):
                         names.append(t[0])
             return names
 
-        # ---- observation, never a failure: the statement speaks of combinations of distinct headers, so a
-        # header that cannot be included twice in one TU is only recorded (it matters to C18 exactly when
-        # another public header includes it, and then a pair configuration below fails by itself).
+        # ---- a combination may name the same header more than once: a client reaches a public header twice in one
+        # TU whenever two of its own headers each include it. Every header the statement covers carries an include
+        # guard (the one guard-less template is exactly the one it excludes), so each must survive being included
+        # twice; a definition placed outside the guard is a compile error for such a client (C18.include_twice).
         def twice(h):
             src = os.path.join(work, 'aux', 'twice_%s.c' % h.replace('.', '_'))
             with open(src, 'w') as f:
@@ -572,9 +573,30 @@ def run(ctx):
         with concurrent.futures.ThreadPoolExecutor(max_workers=njobs) as ex:
             idem = list(ex.map(twice, headers))
         not_idem = [h for h, ok in zip(headers, idem) if not ok and funcs[h] is not None]
-        bump('obs_headers_not_idempotent', len(not_idem))
+        # ---- the statement's client is "a C99 program" compiled with the project's *warning* flags; the feature-test
+        # macro the library's Makefile passes for its own sources (-D_POSIX_C_SOURCE=...) is not one of those, and a
+        # client does not know it. Every header compiles as strict C99 without it on the pinned tree; a header that
+        # starts to need it is unusable for a plain C99 client although every configuration that borrows the
+        # library's full command line still builds (C18.c99_client).
+        plain_flags = [x for x in cflags if not re.match(r'-D_[A-Z_]*SOURCE(=|$)', x)]
+        def plain(h):
+            src = os.path.join(work, 'aux', 'plain_%s.c' % h.replace('.', '_'))
+            with open(src, 'w') as f:
+                f.write('#include "cstl/%s"\nint main(void) { return 0; }\n' % h)
+            rc2, _o = _run([cc] + plain_flags + ['-O0', '-I' + os.path.join(tree, 'include'), '-fsyntax-only', src])
+            return rc2 == 0, _o
+        if plain_flags != cflags:
+            with concurrent.futures.ThreadPoolExecutor(max_workers=njobs) as ex:
+                pl = list(ex.map(plain, headers))
+        else:
+            pl = [(True, '')] * len(headers)
+        not_plain = [(h, o) for h, (ok, o) in zip(headers, pl) if not ok and funcs[h] is not None]
+        bump('headers_as_plain_c99', len(headers) if plain_flags != cflags else 0)
+        bump('headers_needing_feature_macro', len(not_plain))
+        bump('headers_included_twice', len(headers))
+        bump('headers_not_idempotent', len(not_idem))
         if not_idem:
-            stats['obs_headers_not_idempotent'] = not_idem
+            stats['headers_not_idempotent'] = not_idem
 
         # ---- 4 (cheap, done first). symbol tables
         so_syms, a_syms, nmdiag = defined_symbols(tree)
@@ -695,6 +717,25 @@ def run(ctx):
                 k = '%s: tus=%d link=%s usage=%s' % (p.stage, p.tus, p.link, p.usage)
                 br[k] = br.get(k, 0) + 1
             stats['failure_breakdown'] = dict(sorted(br.items()))
+        if not_idem and not (missing_so or missing_a) and not failures:
+            h0 = not_idem[0]
+            msg = ('%d public header(s) cannot be included twice in one translation unit (a client whose own headers each include it '
+                   'gets a compile error): %s' % (len(not_idem), ', '.join(not_idem[:6])))
+            src = '#include "cstl/%s"\n#include "cstl/%s"\nint main(void) { return 0; }\n' % (h0, h0)
+            steps = ('if %s %s -O0 -I"$T/include" -fsyntax-only "$HERE/twice.c"; then echo "not reproduced"; exit 0; fi\n'
+                     'echo "REPRODUCED C18.include_twice"; exit 1\n' % (cc, ' '.join(shlex.quote(x) for x in cflags)))
+            rp = save_replay(ctx, 'C18.include_twice', msg, {'twice.c': src}, steps, 'not idempotent: %s' % not_idem, 'twice')
+            return finish(('C18.include_twice', rp, msg))
+        if not_plain and not (missing_so or missing_a) and not failures:
+            h0, o0 = not_plain[0]
+            first = ([l for l in o0.splitlines() if 'error' in l] or [''])[0].strip()
+            msg = ('%d public header(s) compile only with the feature-test macro of the library\'s own build (%s), not in a plain C99 '
+                   'client: %s; first: %s' % (len(not_plain), ' '.join(x for x in cflags if x not in plain_flags), ', '.join(h for h, _ in not_plain[:6]), first[:160]))
+            src = '#include "cstl/%s"\nint main(void) { return 0; }\n' % h0
+            steps = ('if %s %s -O0 -I"$T/include" -fsyntax-only "$HERE/plain.c"; then echo "not reproduced"; exit 0; fi\n'
+                     'echo "REPRODUCED C18.c99_client"; exit 1\n' % (cc, ' '.join(shlex.quote(x) for x in plain_flags)))
+            rp = save_replay(ctx, 'C18.c99_client', msg, {'plain.c': src}, steps, o0, 'plain')
+            return finish(('C18.c99_client', rp, msg))
         if foreign_syms and not (missing_so or missing_a) and not failures:
             msg = ('the library exports %d global symbol(s) outside its own prefix: %s; a client program that defines the same name gets a '
                    'duplicate symbol against libcstl.a (or silently replaces the library\'s function in libcstl.so)' % (len(foreign_syms), ', '.join(foreign_syms[:6])))
